@@ -545,6 +545,66 @@ func ruleNoSemiHazards(c *Ctx, t *tables, g *grammarModel) {
 	}
 	sg := c.semiGuard()
 	c.Tables["R6_2_omitted_semicolon_mechanism"] = sg.describe()
+	// the mechanism is private to the text writers: nothing else may consume or set the flag, and the comment replay
+	// must not go through the text writers (a comment between two statements would use up the flag before the
+	// statement that needs the ';' is written)
+	if sg.flag != nil && sg.closer != nil {
+		semiW := c.fn("(*ast.CodeWriter).WriteSemi")
+		okWriters := true
+		for _, f := range c.libFunctions() {
+			allInstrs(f, func(_ *ssa.BasicBlock, _ int, in ssa.Instruction) {
+				if st, ok := in.(*ssa.Store); ok {
+					if _, ok := isFieldAddr(st.Addr, sg.flag); ok && f != semiW && f != sg.closer && f != sg.terminate {
+						okWriters = false
+						c.bad(fmt.Sprintf("%s: writes the omitted-semicolon flag", fnName(f)), st.Pos(), "only the semicolon writer may set the flag and only the closer / the terminator request may clear it")
+					}
+				}
+			})
+		}
+		if okWriters {
+			c.ok("omitted-semicolon flag: writers", sg.pos, "set by the semicolon writer, cleared by %s and the terminator request only", fnName(sg.closer))
+		}
+		textWriter := map[string]bool{}
+		for _, wn := range sg.writers {
+			textWriter[wn] = true
+		}
+		okCallers := true
+		for _, f := range c.libFunctions() {
+			allInstrs(f, func(_ *ssa.BasicBlock, _ int, in ssa.Instruction) {
+				if ci, ok := in.(ssa.CallInstruction); ok && ci.Common().StaticCallee() == sg.closer {
+					if !(f.Signature.Recv() != nil && namedIs(f.Signature.Recv().Type(), "ast", "CodeWriter") && textWriter[f.Name()]) {
+						okCallers = false
+						c.bad(fmt.Sprintf("%s: consults the closer", fnName(f)), in.Pos(), "the closer is consulted for text that is not a statement's first token: the flag is used up (and no ';' written) before the statement that needs it")
+					}
+				}
+			})
+		}
+		if okCallers {
+			c.ok("closer: callers", sg.pos, "only the text writers %s", strings.Join(sg.writers, ", "))
+		}
+		// layout / comment methods of the writer do not call the text writers
+		okReplay := true
+		for _, f := range c.libFunctions("ast") {
+			if f.Signature.Recv() == nil || !namedIs(f.Signature.Recv().Type(), "ast", "CodeWriter") || f == semiW {
+				continue
+			}
+			allInstrs(f, func(_ *ssa.BasicBlock, _ int, in ssa.Instruction) {
+				ci, ok := in.(ssa.CallInstruction)
+				if !ok {
+					return
+				}
+				cal := ci.Common().StaticCallee()
+				if cal == nil || cal.Signature.Recv() == nil || !namedIs(cal.Signature.Recv().Type(), "ast", "CodeWriter") || !textWriter[cal.Name()] {
+					return
+				}
+				okReplay = false
+				c.bad(fmt.Sprintf("%s: writes through the text writer %s", fnName(f), cal.Name()), in.Pos(), "a writer method other than the semicolon writer sends text through the text writers: layout or comment text between two statements then consumes the omitted-semicolon flag (and a pending mapping) meant for the next statement's first token")
+			})
+		}
+		if okReplay {
+			c.ok("writer-internal text does not go through the text writers", sg.pos, "comment replay and layout append with the emit primitives")
+		}
+	}
 	var conts []string
 	for k := range cont {
 		conts = append(conts, k)
